@@ -418,6 +418,11 @@ def main(rec):
             if fa and fb:
                 rec.count("both_variants_rejected")
                 continue
+            if fa != fb and a.get("sib") and fb:
+                # the option makes the declaration that carries it unwrappable (e.g. F_create_bufferify_function: false on a
+                # function that needs the buffer conversion): Shroud says so; nothing to compare
+                rec.count("sibling_option_not_applicable")
+                continue
             if fa != fb:
                 bad = ra if fa else rb
                 e = bad.get("exc") or {}
